@@ -686,6 +686,62 @@ fn bounded_failed_blob_unlink_is_contained() {
     assert_eq!(sget(&cas, "k4").as_deref(), Some(&b"w2"[..]), "after reopen: k4");
 }
 
+/// bound: log records of 45 B ... 5 MiB (keys of 0 / 9,000 / 70,000 / 1,100,000 / 5,000,000 bytes, then one Remove of all five), N=1000 so that
+/// nothing is checkpointed; kill image and clean reopen; then every single-byte change of the record that follows the largest one
+#[test]
+fn bounded_large_log_records_survive_reopen_and_stay_checked() {
+    fn copy_dir(from: &std::path::Path, to: &std::path::Path) {
+        std::fs::create_dir_all(to).unwrap();
+        for e in std::fs::read_dir(from).unwrap().flatten() {
+            let p = e.path(); let t = to.join(e.file_name());
+            if p.is_dir() { copy_dir(&p, &t); } else if e.file_name() != "LOCK" { std::fs::copy(&p, &t).unwrap(); }
+        }
+    }
+    let c = || Config { num_ops_per_wal: NonZeroU64::new(1000).unwrap(), scan_orphans_on_startup: false, ..Config::default() };
+    let sizes = [0usize, 9_000, 70_000, 1_100_000, 5_000_000];
+    let key = |n: usize| -> Vec<u8> { (0..n).map(|j| (j as u32).wrapping_mul(2654435761).rotate_left(9) as u8).collect() };
+    let dir = tempfile::tempdir().unwrap();
+    let live = dir.path().join("live");
+    let (img_puts, img_all);
+    {
+        let cas: crate::Cas<Vec<u8>> = crate::Cas::open(&live, c()).unwrap();
+        for (i, n) in sizes.iter().enumerate() { put(&cas, key(*n), format!("value {i}").as_bytes()); }
+        put(&cas, b"after the big ones".to_vec(), b"tail");
+        img_puts = dir.path().join("img_puts"); copy_dir(&live, &img_puts);       // kill image: every put acknowledged
+        let n = cas.remove_range::<std::ops::RangeFull>(..).unwrap(); assert_eq!(n, sizes.len() + 1);
+        put(&cas, b"last".to_vec(), b"z");
+        img_all = dir.path().join("img_all"); copy_dir(&live, &img_all);
+    }
+    for (what, p) in [("kill image after the puts", &img_puts)] {
+        let cas: crate::Cas<Vec<u8>> = crate::Cas::open(p, c()).unwrap_or_else(|e| panic!("{what}: open fails although every operation was acknowledged: {e:?}"));
+        for (i, n) in sizes.iter().enumerate() {
+            assert_eq!(cas.get(&key(*n)).unwrap().as_deref(), Some(format!("value {i}").as_bytes()), "{what}: the acknowledged put with a key of {n} bytes is missing");
+        }
+        assert_eq!(cas.get(&b"after the big ones".to_vec()).unwrap().as_deref(), Some(&b"tail"[..]), "{what}: the put logged after the large records is missing");
+    }
+    for (what, p) in [("kill image after the bulk removal", &img_all), ("clean reopen", &live)] {
+        let cas: crate::Cas<Vec<u8>> = crate::Cas::open(p, c()).unwrap_or_else(|e| panic!("{what}: open fails although every operation was acknowledged: {e:?}"));
+        let keys: Vec<Vec<u8>> = cas.read_index_state().iter().map(|(k, _)| k.clone()).collect();
+        assert_eq!(keys, vec![b"last".to_vec()], "{what}: the acknowledged bulk removal (one log record of > 6 MB) or the put after it was not replayed");
+    }
+    // damage behind the largest records must still be noticed: flip one byte in the last record (the put of "last") of the image
+    let seg = img_all.join("0_index.wal");
+    let orig = std::fs::read(&seg).unwrap();
+    let last_len = 44 + 4 + 1 + 4 + 32 + 8;   // header + Put{key "last"}: tag-less layout is not assumed: only the tail region is used
+    for back in [1usize, 9, 20, 33, 41] {
+        if back >= last_len { continue; }
+        let mut bytes = orig.clone(); let at = bytes.len() - back; bytes[at] ^= 0x40;
+        let d2 = dir.path().join(format!("dmg{back}")); copy_dir(&img_all, &d2); std::fs::write(d2.join("0_index.wal"), &bytes).unwrap();
+        match crate::Cas::<Vec<u8>>::open(&d2, c()) {
+            Err(_) => {}
+            Ok(cas) => {
+                let keys: Vec<Vec<u8>> = cas.read_index_state().iter().map(|(k, _)| k.clone()).collect();
+                assert!(keys.is_empty(), "a changed byte {back} from the end of the log (behind a 6 MB record) was accepted silently: the store opened with {} keys that are not the state after the longest undamaged prefix", keys.len());
+            }
+        }
+    }
+}
+
 /// bound: one store whose only garbage is a staging file left by a crashed transaction
 #[test]
 fn bounded_cleanup_of_staging_leftover_alone() {
